@@ -25,8 +25,11 @@ Levels:
            primitives (all K! for K <= 4); splits; column factor k on the un-normalised block and 1/|k| on
            norm_cont; additivity and homogeneity in the coefficient matrix (un-normalised linearity).
 Tolerance 1e-9 relative to the magnitude of the result (max |entry| of the array or, for stacked results, of the
-slice; never below 1e-9 absolute for contraction-normalised quantities): scaling by 1e+-6 goes through the
-renormalisation, so the comparison is relative to the normalised result.  For a seeded subset the exact Coq model
+slice; never below 1e-9 absolute for contraction-normalised quantities; at block level never below 1e-9 of the
+magnitude of the terms, i.e. of the block with |coefficients|): scaling by 1e+-6 goes through the renormalisation, so
+the comparison is relative to the normalised result.  Electron repulsion: 1e-6 (the accuracy clause of C04; two
+evaluations of one integral through different quartets differ by the rounding of the recursion, up to 5e-9 seen for
+exponent ratios of 4000).  For a seeded subset the exact Coq model
 (runner commands 1-21, 100-102) is evaluated on BOTH the original and the rewritten input: implementation against
 model (1e-8 of the scale) and model against model (1e-15: the executable model obeys the law it is proved to obey;
 the residue is the 72-bit rounding of the oracle square roots of the renormalisation).
@@ -67,6 +70,7 @@ EXTRA = {}
 TOL = 1e-9
 TOL_MODEL = 1e-8
 TOL_MODEL_ERI = 1e-6
+TOL_ERI = 1e-6
 TOL_MM = 1e-15
 # the fast runner rounds individual terms of long sums to multiples of 2^-400 (Base/Field.v, fapx): model values
 # are meaningful down to ~1e-115 only; un-normalised blocks of primitive-normalised functions have natural scale 1
@@ -450,6 +454,13 @@ def eval_basis_case(model, case):
     return {"detail": None, "nontrivial": bool(changed and nonzero), "tag": tag, "stats": stats}
 
 
+def _tol_of(name):
+    # electron repulsion: the accuracy of the floating-point recursion itself is C04's subject (1e-6 of the Schwarz
+    # bound there, and it depends on the bra/ket orientation of tight x diffuse quartets); two evaluations of the same
+    # integral through different shell quartets (segmented basis) or another summation order inherit that accuracy
+    return TOL_ERI if name.startswith("eri") else TOL
+
+
 def _judge(name, st0, r0, st1, r1, signs, kind, floor):
     if st0 != "ok" or st1 != "ok":
         if st0 == st1:
@@ -468,7 +479,7 @@ def _judge(name, st0, r0, st1, r1, signs, kind, floor):
                 d["module"] = name
                 return d
         return None
-    d = close(r0, r1, TOL, floor, name)
+    d = close(r0, r1, _tol_of(name), floor, name)
     if d:
         d["module"] = name
     return d
@@ -567,6 +578,7 @@ def eval_block_case(model, case):
         b = np.asarray(b)
         return float(np.max(np.abs(b))) if b.size and np.all(np.isfinite(b)) else 1e-300
 
+    tolb = _tol_of(cls)
     st0, b0 = blk(xs)
     if st0 != "ok":
         return {"detail": {"kind": "rejected", "module": cls, "impl": b0}, "tag": tag, "stats": stats}
@@ -613,7 +625,7 @@ def eval_block_case(model, case):
             if st1 != "ok":
                 return {"detail": {"kind": "rejected-one-side", "module": cls, "impl": b1}, "tag": tag, "stats": stats}
             ref = np.take(b0, [ma], axis=ax)
-            d = close(ref, np.asarray(b1), TOL, 1e-300, "%s block column %d of shell %d" % (cls, ma, pos))
+            d = close(ref, np.asarray(b1), tolb, 1e-300, "%s block column %d of shell %d" % (cls, ma, pos))
             if d:
                 d["module"] = cls
                 return {"detail": d, "tag": tag, "stats": stats}
@@ -633,7 +645,7 @@ def eval_block_case(model, case):
         st1, b1 = blk(with_shell(new))
         if st1 != "ok":
             return {"detail": {"kind": "rejected-one-side", "module": cls, "impl": b1}, "tag": tag, "stats": stats}
-        d = close(b0, np.asarray(b1), TOL, term_scale(with_shell(new)), "%s block %s of shell %d" % (cls, t, pos))
+        d = close(b0, np.asarray(b1), tolb, term_scale(with_shell(new)), "%s block %s of shell %d" % (cls, t, pos))
         if d is None:
             d = close(s.to_gbasis().norm_cont, new.to_gbasis().norm_cont, TOL, 1e-300, "norm_cont")
             if d:
@@ -658,7 +670,7 @@ def eval_block_case(model, case):
         d = None
         ts = term_scale(xs)
         for j in range(m):     # column by column: the scaled column has another magnitude
-            d = close(np.take(exp, [j], axis=ax), np.take(np.asarray(b1), [j], axis=ax), TOL, abs(fac[j]) * ts,
+            d = close(np.take(exp, [j], axis=ax), np.take(np.asarray(b1), [j], axis=ax), tolb, abs(fac[j]) * ts,
                       "%s block column %d (factor %s on column %d)" % (cls, j, kk, rw["col"]))
             if d:
                 d["module"] = cls
@@ -691,9 +703,9 @@ def eval_block_case(model, case):
                     "stats": stats}
         b2, b3, b4 = np.asarray(b2), np.asarray(b3), np.asarray(b4)
         scale = max(term_scale(xs), term_scale(with_shell(s2)))
-        d = close(b0 + b2, b3, TOL, scale, "%s block additivity in the coefficients of shell %d" % (cls, pos))
+        d = close(b0 + b2, b3, tolb, scale, "%s block additivity in the coefficients of shell %d" % (cls, pos))
         if d is None:
-            d = close(float(kk) * b0, b4, TOL, abs(float(kk)) * term_scale(xs), "%s block homogeneity (k = %s) in the coefficients of shell %d"
+            d = close(float(kk) * b0, b4, tolb, abs(float(kk)) * term_scale(xs), "%s block homogeneity (k = %s) in the coefficients of shell %d"
                       % (cls, kk, pos))
         if d:
             d["module"] = cls
